@@ -24,6 +24,9 @@ V = Union[int, str]
 def ok(vs, n=1):
     return all(not isinstance(v, str) or (len(v) <= n and all(c in 'abA' for c in v)) for v in vs)
 
+def okw(vs, n=1):
+    return all(not isinstance(v, str) or (len(v) <= n and all(c in 'ab*?.' for c in v)) for v in vs)
+
 def _install_plugins():
     from vlib import plugins
     plugins.install_ascii_case()
@@ -114,6 +117,14 @@ FORMS['wild_star'] = ('"a*"', "acc_wild('a*')")
 FORMS['wild_q'] = ('"?b"', "acc_wild('?b')")
 FORMS['wild_q_short'] = ('"a?"', "acc_wild('a?')")
 FORMS['wild_escaped'] = ('"a~*"', "acc_wild('a~*')")
+FORMS['wildx_two_runs'] = ('"*b*"', "acc_wild('*b*')")
+FORMS['wildx_two_runs_prefix'] = ('"a*b*"', "acc_wild('a*b*')")
+FORMS['wildx_mixed_run'] = ('"a?*"', "acc_wild('a?*')")
+FORMS['wildx_two_q_runs'] = ('"?b?"', "acc_wild('?b?')")
+FORMS['wildx_escaped_q'] = ('"~?*"', "acc_wild('~?*')")
+FORMS['wildx_escaped_star'] = ('"*~*"', "acc_wild('*~*')")
+FORMS['wildx_escaped_then_q'] = ('"a~*?"', "acc_wild('a~*?')")
+FORMS['wildx_dot_literal'] = ('"a.*"', "acc_wild('a.*')")
 FUNCS = {
     'sumif3': ('=SUMIF(A1:A3,{c},B1:B3)', 'sum'), 'sumifs': ('=SUMIFS(B1:B3,A1:A3,{c})', 'sum'), 'countifs': ('=COUNTIFS(A1:A3,{c})', 'count'),
     'averageifs': ('=AVERAGEIFS(B1:B3,A1:A3,{c})', 'avg'),
@@ -171,7 +182,7 @@ def run(report, tier, seed):
             numeric = form in numeric_forms
             # text / wildcard forms: one symbolic cell (the accept predicate is what they add; position selection is covered by the numeric forms)
             sig = 'a1: V, a2: V, a3: V, b1: int, b2: int, b3: int, c1: int' if numeric else 'a1: str, b1: int, b2: int, b3: int'
-            pre = 'ok([a1, a2, a3])' if numeric else 'ok([a1], 3)'
+            pre = 'ok([a1, a2, a3])' if numeric else ('okw([a1], 3)' if form.startswith(('wildx_', 'wild_escaped')) else 'ok([a1], 3)')
             head = '' if numeric else "a2, a3, c1 = 'ab', 7, 2\n                a1 = realize(a1)\n                "
             accsrc = head + 'sel = select([[a1, a2, a3]], [' + accsrc + '])'
             if fold == 'sum':
@@ -254,7 +265,7 @@ def run(report, tier, seed):
             vs = [a1, a2, a3]
             return outcome(lambda: ev(('{nm}', ''), A1=a1, A2=a2, A3=a3, B1=b1, B2=b2, B3=b3)) == ('val', {exp})
         ''', encodes=enc, requires=f"('{nm}', '') in K")
-    report.bound('3-row criteria column (cells Union[int, str]: len<=1 for numeric criterion forms, one symbolic cell with str len<=3 over abA for text/wildcard forms, realised early (the solver enumerates the 40 texts)), 3-row int target column, criterion cell int; criterion forms: '
+    report.bound('3-row criteria column (cells Union[int, str]: len<=1 for numeric criterion forms, one symbolic cell with str len<=3 over abA (text and simple wildcard forms) or over ab*?. (forms with several wildcard runs, escapes, a regex-special character), realised early (the solver enumerates the 40 / 156 texts)), 3-row int target column, criterion cell int; criterion forms: '
                  f'{len(forms)} (x 4 functions) + 24 structural shapes (2 pairs, target derivation, misaligned ranges incl. row/rectangle layouts, whole-column ranges over columns of different fill, decimal thresholds on a 14-value menu)')
     report.assume('three-valued accept predicate: blank/boolean cells and wildcard matches that differ between the case-sensitive and case-insensitive '
                   'reading are unconstrained (the statement demands case-insensitivity for plain text only); a text cell under a numeric comparison '
